@@ -66,8 +66,8 @@ ASYNC_BY_DESIGN = ["Interval", "IntervalWithInitial", "FromChannel", "Never", "F
 KNOWN_CTX_ROWS = {("MergeAll", "complete", "lastSeen"), ("OnErrorResumeNextWith", "error", "lastSeen"), ("OnErrorResumeNextWith", "complete", "lastSeen"),
                   ("WhileIWithContext", "subscribe", "lastSeen"), ("ReduceIWithContext", "next", "lastSeen"), ("RepeatWith", "complete", "lastSeen"),
                   ("Timeout", "error", "lastSeen"), ("DefaultIfEmptyWithContext", "next", "outer"), ("ContextReset", "next", "outer"),
-                  ("ContextReset", "error", "outer"), ("ContextReset", "complete", "outer"), ("ToChannel", "next", "todo")}
-KNOWN_STATE_ROWS = {("MergeMapIWithContext", "i"), ("OnErrorResumeNextWith", "finally"), ("ShareWithConfig", "refCount")}
+                  ("ContextReset", "error", "outer"), ("ContextReset", "complete", "outer")}
+KNOWN_STATE_ROWS = {("ShareWithConfig", "refCount")}
 KNOWN_WAITING = ["ConcatAll", "OnErrorResumeNextWith", "RetryWithConfig", "DoWhileIWithContext", "WhileIWithContext", "RepeatWith", "Timer", "detachOn"]
 
 
